@@ -371,7 +371,8 @@ def mutants_at(site, env, fresh):
         wild = [i for i, (m, _) in enumerate(arms) if m == ('mw',)]
         kinds = {m[0] for m, _ in arms}
         if wild and len(arms) >= 2:
-            out.append(('match-drop-wildcard-arm', ('match', e[1], [a for i, a in enumerate(arms) if i not in wild])))
+            # on a TUPLE scrutinee the real checker still asks for no exhaustiveness (what is left of finding T7)
+            out.append(('match-drop-wildcard-arm' + ('-tuple' if 'mt' in kinds else ''), ('match', e[1], [a for i, a in enumerate(arms) if i not in wild])))
         if 'mc' in kinds and not wild and 'mt' not in kinds and len(arms) >= 2:
             out.append(('match-drop-constructor-arm', ('match', e[1], arms[:-1])))
         if len(arms) >= 2:
@@ -485,8 +486,24 @@ def gen_mutants(p, rng, k):
     sites, env = sites_of(p)
     n = fresh_id(p)
     cands = []
+    def root_expr(root):
+        k, i = root
+        return p['globals'][i][3] if k == 'fun' else p['globals'][i][2] if k == 'glet' else p['lets'][i][1] if k == 'let' else p['outs'][i]
+    def parent_of(site):
+        root, path = site[0], site[1]
+        if not path:
+            return None
+        e = root_expr(root)
+        for j in path[:-1]:
+            e = lmmx_shrink.children(e)[j]
+        return e
     for s in sites:
         for kind, new in mutants_at(s, env, n):
+            if kind == 'ctor-missing-payload':
+                # directly the scrutinee of a match: the repaired part of finding T9 (the patterns ask for the sum type)
+                par = parent_of(s)
+                if par is not None and par[0] == 'match' and s[1][-1] == 0:
+                    kind = 'ctor-missing-payload-scrutinee'
             cands.append((kind, s, new))
     by_kind = {}
     for c in cands:
@@ -587,19 +604,19 @@ FINDINGS = {
           "'value reg(N) not found' (site of F38): let g = |x:float| { x + 1.0 }  g((1.0, 2.0)).0 ; WASM plays",
     "TS": "(not a defect) `self` has an inferred type in the real checker; the model needs it written at the function's type (XSelfS): the "
           "mutant reads a tuple-valued self with the number form of `self`",
-    "T6": "typing.rs Expr::Match unifies the types of the arms with `let _ = self.unify_types(first, *ty)`: the error is DROPPED, arms of "
-          "different types are accepted and the match has the type of its first arm (fn dsp(){ (match now { 0 => 1.0, _ => (2.0, 3.0) }) + 1.0 } "
-          "plays 2 3 3: the first word of the tuple is used as the number)",
-    "T7": "check_match_exhaustiveness only looks at sum-typed scrutinees: a match on a number or a tuple without `_` arm is accepted; when no "
-          "arm applies the VM runs the LAST arm's code and WASM plays 0.0 (fn dsp(){ match now { 0 => 10.0, 1 => 20.0 } }: VM 10 20 20, WASM 10 20 0; "
-          "the reference semantics is stuck: E_NOMATCH)",
-    "T8": "the patterns of a match are not checked against the type of the scrutinee (the unification result of a literal pattern is dropped, "
-          "constructor / tuple patterns meet any type): a constructor or tuple pattern on a number, a tuple pattern longer than the tuple, a "
-          "binder for a constructor that has no payload (match A { A(q) => q, .. }: VM compile panic `value extfun q () not found`, WASM dsp "
-          "yields NO output word), a tuple payload pattern on a number payload are accepted; such arms are silently never taken",
-    "T9": "a constructor that carries a payload, used WITHOUT it as the scrutinee of a match or let-bound (type T = A | B(float)  match B { .. }), "
-          "is accepted (the constructor's function type is never compared with the sum type the patterns ask for): VM compile panic `value "
-          "constructor B(tag=1, ..) not found`, WASM invalid module",
+    "T6": "REPAIRED (fix: match arms of different types are a type error): typing.rs Expr::Match dropped the error of unifying the arms "
+          "((match now { 0 => 1.0, _ => (2.0, 3.0) }) + 1.0 played 2 3 3); the mutants of kind match-arms-type must be rejected again",
+    "T7": "what is left: check_match_exhaustiveness takes every TUPLE pattern for a wildcard: a match on a tuple without `_` arm is accepted; when "
+          "no arm applies the VM runs the LAST arm's code and WASM plays 0.0 (fn g(p){ match p { (0, 0) => 1.0, (1, _) => 2.0 } } fn dsp(){ "
+          "g((now, 0.0)) }: VM 1 2 2, WASM 1 2 0; the reference semantics is stuck: E_NOMATCH).  REPAIRED for a number scrutinee (fix: a match "
+          "on a number without a `_` arm is reported as not exhaustive)",
+    "T8": "REPAIRED (fix: match patterns are checked against the type of the scrutinee): a constructor or tuple pattern on a number, a tuple "
+          "pattern of another width, a literal pattern on a sum value, a binder for a constructor without payload, a tuple payload pattern on a "
+          "number payload are rejected again.  Left (not generated): a bare identifier that is no declared constructor, in a tuple pattern over "
+          "a scrutinee whose type is not yet known, is taken for constructor number 0 (fn u(p){ match p { (a, 0) => 5.0, _ => 7.0 } })",
+    "T9": "what is left: a constructor that carries a payload used as a first-class FUNCTION value (type T = A | B(float)  let v = B ; ap(B, 2.0)) "
+          "is well typed (float -> T) but the VM code generator panics (`value constructor B(tag=1, ..) not found`, `Option::unwrap()` on "
+          "None) and WASM plays 0; same family as C04/F55.  REPAIRED: B without its payload as the scrutinee of a match is a type error",
     "DEF": "default parameter values are not visited by the type check (C04/F42, F50): fn f(x:float, y:float = (1.0, 2.0))",
     "F40": "C03/F40: arithmetic between a number and a tuple (broadcasting) used as a number",
 }
@@ -613,10 +630,18 @@ TOLERATED = {
     "self-returns-closure": "T2", "self-returns-tuple-read-as-number": "TS",
     "delay-tuple": "T3", "delay-time-tuple": "T3", "assign-function-name": "T4",
     "arg-tuple": "T5", "pipe-tuple": "T5", "default-tuple": "DEF", "binop-tuple": "F40", "neg-tuple": "F40",
+    "match-drop-wildcard-arm-tuple": "T7",
+    "ctor-missing-payload": "T9", "ctor-other-payload": "T0",
+}
+
+# mutant kinds of REPAIRED leniencies (T6, T7 on numbers, T8, the scrutinee part of T9): the lenient configuration of tc_prog still
+# models the old typing.rs for them (it is an upper bound only), so it cannot excuse them any more: whenever tc_prog (strict)
+# rejects such a mutant the real checker must reject it too
+MUST_REJECT = {
     "match-arms-type": "T6", "match-drop-wildcard-arm": "T7", "match-scrutinee-tuple": "T8",
     "match-constructor-pattern-on-number": "T8", "match-tuple-pattern-on-number": "T8", "match-tuple-pattern-longer": "T8",
     "match-payload-pattern-tuple": "T8", "match-binder-for-no-payload": "T8", "match-literal-pattern-on-sum": "T8",
-    "ctor-missing-payload": "T9", "ctor-other-payload": "T0",
+    "ctor-missing-payload-scrutinee": "T9",
 }
 
 
@@ -840,6 +865,9 @@ def run_part(ck, quick=True, site_class=None):
                 bad.append((i, "the lenient configuration of tc_prog rejects a program its strict configuration accepts (mutation: %s)" % kind)); continue
             if mv == "ok" and rv != "ok":
                 bad.append((i, "tc_prog accepts a program the real type checker rejects (mutation: %s)" % kind)); continue
+            if rv == "ok" and mv != "ok" and kind in MUST_REJECT:
+                bad.append((i, "the real type checker accepts a mutant of kind %s that tc_prog rejects: the repaired finding %s is back "
+                               "(typing.rs no longer reports it)" % (kind, MUST_REJECT[kind]))); continue
             if rv == "ok" and lv != "ok" and kind not in TOLERATED and not kind.startswith("self-returns") and free_self(p):
                 bump("mutants_discarded_self_has_an_inferred_type"); kbump(kind, "discarded(self inferred)")
                 continue
@@ -903,10 +931,10 @@ def run_part(ck, quick=True, site_class=None):
             if "X7" in known and "crash" in why and kind is not None:
                 pass
             # compile failures of a backend inside a class of the C02 part (witnesses in corpus/lmmx, reported there on every run):
-            # MG: VM `value reg(N) not found` for a match with payload binders at global scope; W10: WASM invalid module for a lambda
-            # returning its own sum-typed self
-            lc = sorted(c for c in kc if c in ("MG", "W10"))
-            if lc and all(v == 'ok' or re.search(r"value reg\(\d+\) not found|Failed to load WASM module", v) for v in outs.values()):
+            # MG (what is left of it): VM `value reg(N) not found` for a lambda that captures the payload binder of a match at global
+            # scope.  (W10 is repaired and no longer excused.)
+            lc = sorted(c for c in kc if c in ("MG",))
+            if lc and all(v == 'ok' or re.search(r"value reg\(\d+\) not found", v) for v in outs.values()):
                 bump("both_accept_backend_compile_failure_in_lmmx_class(%s)" % "+".join(lc)); continue
             bad.append((i, "a program accepted by the real type checker (and by tc_prog) does not compile / run: " + why[:300])); continue
         fid = TOLERATED.get(kind) or "T0"
